@@ -35,6 +35,12 @@ CLAIMED["C16"] = ("proof", CLAIMED["C12"][1] + "; exhaustive finite enumeration 
 CLAIMED["C19"] = ("proof", CLAIMED["C12"][1] + " with ghost file-system effect sets; bounded runs of the real command with a stubbed network",
     "effect contracts on the real bodies of put_license_in_file (writes exactly its destination, only if absent; nothing written on failure; no network for LicenseRef-) and of the download callback (exit 0 only if every requested licence, ID+ as ID, was written; nothing removed); bounded stubbed-network runs cover --all, existing targets, LicenseRef sources and mid-batch failures",
     "assumes urllib/shutil/pathlib effects as modelled, _path_to_license_file's destination (exercised by the bounded runs), single process", "4.19")
+CLAIMED["C11"] = ("proof", CLAIMED["C12"][1] + " with ghost file-system effect sets",
+    "effect contracts on the real bodies of add_header_to_file (a failed header writes nothing; only FILE or FILE.license may be written; relativised to the listed known finding about --fallback-dot-license) and of the annotate callback (every file is processed whatever happened to the others, exit status 0 or 1, usage errors before any effect)",
+    "header construction functions are assumed to fail only with the two anticipated exceptions and to have no effects; the exit status is proved to be min(sum of per-file results, 1) only as 'in {0,1}'", "4.11")
+CLAIMED["C15"] = ("proof", CLAIMED["C12"][1] + " with ghost file-system effect sets; exhaustive syntactic scan for writing APIs",
+    "closed list of writing operations by an exhaustive scan on every run; effect contracts on the real bodies of the lint and lint-file callbacks (no effects), add_header_to_file, all_paths (only named files or covered files below named directories), the annotate callback, the convert-dep5 callback (REUSE.toml written, dep5 removed only afterwards, refusal without effects) and put_license_in_file / download",
+    "effects of pathlib/shutil/open as modelled; VCS subprocesses, click.File and os.environ are listed assumptions; named symlink arguments follow the link", "4.15")
 NOT_YET = "check not built yet in this session (work in progress; see DESIGN.md section 4 for the planned contracts)"
 props = [json.loads(l) for l in open(os.path.join(V, "properties.jsonl"))]
 checks, na = [], []
